@@ -23,8 +23,8 @@ EXTRA_IMPORTS = 'From PJ Require Import Model.Http.\n'
 RULE = ('integrations {aiohttp, flask, werkzeug} through their own test clients x Content-Type values (each documented type, with a '
         'charset parameter, upper / mixed case, spaces around, trailing ";", near misses application/jsonx, application/json-rpc2, '
         'application/foo+json, application/x-json, text/plain, the empty string, header missing) x bodies (call, call answered with an '
-        'error, call raising, unknown method, calls whose parameters do not bind, notification, batch, all-notification batch, invalid request, non-JSON text, a BOM-prefixed call / notification, non-UTF-8 '
-        'bytes) x status-by-error functions (default, a code table, a table answering 207 when nothing failed) x endpoints (main, an added endpoint with its own methods). The '
+        'error, call raising, unknown method, calls whose parameters do not bind, notification, batches (mixed with a notification, all succeeding, all failing, succeeding and failing mixed), all-notification batch, invalid request, non-JSON text, a BOM-prefixed call / notification, non-UTF-8 '
+        'bytes) x status-by-error functions (default, a code table, a table answering 207 when nothing failed, one answering 200 / 207 / 400 for none / some / all calls failed, one depending on the number of answered calls) x endpoints (main, an added endpoint with its own methods). The '
         'dispatcher verdict for each body is obtained independently from a plain Dispatcher with the same methods. distinct = distinct '
         '(integration, header, body, status function, endpoint); non-trivial = the media type is a documented one')
 EXHAUSTIVE = {'quick': False, 'thorough': True}
@@ -44,6 +44,9 @@ BODIES = {
     'badnamed': b'{"jsonrpc":"2.0","id":6,"method":"add","params":{"a":1,"zz":2}}',
     'note': b'{"jsonrpc":"2.0","method":"add","params":[1,2]}',
     'batch': b'[{"jsonrpc":"2.0","id":1,"method":"add","params":[1,2]},{"jsonrpc":"2.0","method":"add","params":[3,4]},{"jsonrpc":"2.0","id":2,"method":"fail"}]',
+    'batchok': b'[{"jsonrpc":"2.0","id":1,"method":"add","params":[1,2]},{"jsonrpc":"2.0","id":2,"method":"add","params":[3,4]}]',
+    'batchbad': b'[{"jsonrpc":"2.0","id":1,"method":"boom"},{"jsonrpc":"2.0","id":2,"method":"fail"},{"jsonrpc":"2.0","id":3,"method":"nosuch"}]',
+    'batchmix': b'[{"jsonrpc":"2.0","id":"a","method":"add","params":["x",1]},{"jsonrpc":"2.0","id":"b","method":"add","params":{"a":1,"b":2}},{"jsonrpc":"2.0","id":"c","method":"nosuch"}]',
     'notes': b'[{"jsonrpc":"2.0","method":"add","params":[1,2]},{"jsonrpc":"2.0","method":"boom"}]',
     'invalid': b'{"jsonrpc":"2.0"}',
     'garbage': b'{nope',
@@ -56,12 +59,19 @@ BODIES = {
 }
 STATUS = {'default': None, 'table': ([(-32601, 404), (7, 422), (-32700, 409)], 500, 200),
           # a function that does not answer 200 when nothing failed (a gateway reporting 207 / 202)
-          'table207': ([(-32601, 404), (7, 422)], 500, 207)}
+          'table207': ([(-32601, 404), (7, 422)], 500, 207),
+          # functions that look at the successes too and at the number of answered calls
+          'mixed': ('mixed', 400, 207, 200), 'count': ('count', 200)}
 
 
 def status_fn(kind):
     if kind == 'default':
         return None
+    if STATUS[kind][0] == 'mixed':
+        _, allfail, partial, allok = STATUS[kind]
+        return lambda codes: allok if all(c == 0 for c in codes) else partial if any(c == 0 for c in codes) else allfail
+    if STATUS[kind][0] == 'count':
+        return lambda codes: STATUS[kind][1] + len(codes)
     table, other, allok = STATUS[kind]
 
     def f(codes):
@@ -95,7 +105,7 @@ def generate(seed, tier):
     for integ in ('aiohttp', 'flask', 'werkzeug'):
         for h in HEADERS:
             for b in BODIES:
-                for st in ('default', 'table', 'table207'):
+                for st in STATUS:
                     for ep in ('main', 'extra'):
                         if integ == 'werkzeug' and ep == 'extra':
                             continue
@@ -200,6 +210,10 @@ def encode(case, obs):
     integ = {'aiohttp': 'IAiohttp', 'flask': 'IFlask', 'werkzeug': 'IWerkzeug'}[case['integ']]
     if case['status'] == 'default':
         sfn = 'SDefault'
+    elif STATUS[case['status']][0] == 'mixed':
+        sfn = '(SMixed %s %s %s)' % tuple(cZ(x) for x in STATUS[case['status']][1:])
+    elif STATUS[case['status']][0] == 'count':
+        sfn = '(SCount %s)' % cZ(STATUS[case['status']][1])
     else:
         table, other, allok = STATUS[case['status']]
         sfn = '(SFirstError %s %s %s)' % (clist('(%s, %s)' % (cZ(a), cZ(b)) for a, b in table), cZ(other), cZ(allok))
